@@ -68,16 +68,23 @@ def gen_scenario(rng, i):
             base = 'mybudget/'
             b['base'] = base
             b['bystanders'] = {base + k if not k.startswith(base) else k: v for k, v in b['bystanders'].items()}
+        if variant != 'init' and rng.random() < 0.3:
+            # the budget already uses the new layout (./tally/config)
+            base = 'tally/'
+            b['base'] = base
+            b['bystanders'] = {base + k if not k.startswith(base) else k: v for k, v in b['bystanders'].items()}
         files = bm.render_budget(b, rng)
         cfg = base + 'config'
+        cfg_arg = [cfg] if rng.random() < 0.7 else []      # explicit argument, or found from the working directory
+        verb = 'up' if rng.random() < 0.85 else 'run'      # `run` is the deprecated alias
         if variant == 'up-migrate':
             out = rng.choice([['--format', 'json', '-v'], ['--format', 'json', '-v'], ['--summary'], ['--summary', '-q'], [],
                               ['-q', '--format', 'json', '-v']])
-            argv = ['up', cfg, '--migrate'] + out
+            argv = [verb] + cfg_arg + ['--migrate'] + out
             cwd = '.'
         elif variant == 'up-tty':
             tty = {'stdin': True, 'stdout': True, 'answers': [rng.choice(['y', 'Y', ' y '])]}
-            argv = ['up', cfg] + rng.choice([['--format', 'json', '-v'], ['--format', 'json', '-v'], ['--summary'], []])
+            argv = [verb] + cfg_arg + rng.choice([['--format', 'json', '-v'], ['--format', 'json', '-v'], ['--summary'], []])
             cwd = '.'
         else:
             if base:
@@ -95,6 +102,9 @@ def gen_scenario(rng, i):
         sp = cfg + '/settings.yaml'
         if r < 0.1:
             files[sp] = files[sp].rstrip('\n') + '\n# merchants_file: config/merchants.rules  (not yet)\n'
+        if rng.random() < 0.2:
+            # a settings file edited on Windows: CRLF line endings (the user's bytes must survive as a prefix)
+            files[sp] = files[sp].replace('\n', '\r\n')
         obs = {'argv': ['up', cfg, '--format', 'json', '-v'], 'cwd': '.'}
         cls = 'csv-init' if variant == 'init' else 'csv-up'
     else:
@@ -433,6 +443,18 @@ def fault_plans(trace, rng, tier):
             else:
                 plans.append({'kind': 'oserror', 'at': k, 'errno': en})
         plans.append({'kind': 'kbi', 'at': k})
+        # persistent conditions starting at this step: the disk stays full, or turns read-only
+        plans.append({'kind': 'oserror-from', 'at': k, 'errno': 'ENOSPC'})
+        plans.append({'kind': 'oserror-from', 'at': k, 'errno': 'EROFS'})
+    # one path that stays locked / immutable for the whole run (every effect naming it fails)
+    paths = []
+    for e in trace:
+        for key in ('src', 'path', 'dst'):
+            if e.get(key) and e[key] not in paths:
+                paths.append(e[key])
+    for p_ in paths:
+        for en in ('EPERM', 'EACCES'):
+            plans.append({'kind': 'oserror-path', 'path': p_, 'errno': en})
     return plans
 
 
@@ -504,7 +526,9 @@ def run_one(seed, i, tier, scratch):
             sets['post_fault_states'].add(info['sf_digest'])
             sets['shapes'].add(scn['class'] + ': ' + info['shape'])
             if info['sf_digest'] not in (s0d, s1d) and (f0 is None or info['fired'][0]):
-                e = trace[f0['at']] if f0 and f0['at'] < len(trace) else None
+                e = trace[f0['at']] if f0 and f0.get('at') is not None and f0['at'] < len(trace) else None
+                if f0 and f0['kind'] == 'oserror-path':
+                    e = {'k': 'path', 'path': f0['path']}
                 sets['placements'].add('%s|%s|%s|%s' % (scn['class'], effect_desc(e), kindname,
                                                         (f0 or {}).get('cut') or (f0 or {}).get('errno') or ''))
             if info.get('recovered_by_rerun'):
@@ -565,6 +589,8 @@ def shrink_candidates(schedule):
                 yield dict(schedule, faults=fl[:j] + [f2] + fl[j + 1:])
         if f and f['kind'] in ('oserror', 'kbi'):
             yield dict(schedule, faults=fl[:j] + [{'kind': 'crash', 'at': f['at'], 'cut': 'none'}] + fl[j + 1:])
+        if f and f['kind'] == 'oserror-from':
+            yield dict(schedule, faults=fl[:j] + [{'kind': 'oserror', 'at': f['at'], 'errno': f['errno']}] + fl[j + 1:])
     if len(fl) > 1:
         for j in range(len(fl)):
             yield dict(schedule, faults=fl[:j] + fl[j + 1:])
